@@ -337,8 +337,11 @@ def run(ctx):
     # ---- R03.e TApplicationException
     app = {b.name: b for b in prog.bodies.values() if b.crate == 'pilota' and (b.impl_self or '').endswith('ApplicationException') and (b.impl_trait or '').endswith('thrift::Message')}
     want = [('Binary', 1), ('I32', 2)]
+    own_helper = lambda cs, callee: callee.vis != 'Public' and (callee.impl_self or '').endswith('ApplicationException')
     for name, callee, id_some in (('encode', 'write_field_begin', False), ('size', 'field_begin_len', True)):
         b = app.get(name)
+        if b is not None:
+            b = mirlib.inline_calls(b, own_helper)      # private per-field helpers are part of the method
         key = 'R03.e|ApplicationException::%s' % name
         if b is None:
             rep.anchor_missing('R03.e', 'ApplicationException::' + name)
@@ -363,8 +366,7 @@ def run(ctx):
         if b is None:
             rep.anchor_missing('R03.e', 'ApplicationException::' + name)
             continue
-        body = codec.effective_body(b, cg)
-        sw = switch_arms(body, lambda c: True) if False else None
+        body = mirlib.inline_calls(codec.effective_body(b, cg), own_helper)
         arms = None
         for bi, bb in enumerate(body.bbs):
             t = bb['t']
